@@ -8,7 +8,7 @@
    This file holds only the property theorems, each closed by [exact] + Print Assumptions. *)
 From Coq Require Import List ZArith Bool.
 From MirV Require Import Base.W64 Mir.Opcode Mir.Syntax Mir.Sem C01.InsnSem C04.Simplify C04.SimplifyProofs.
-From MirV Require Import gen.C04Shortcuts C04.LoweringSem.
+From MirV Require Import gen.C04Shortcuts C04.LoweringSem C04.LoweringSim.
 Import ListNotations.
 Local Open Scope Z_scope.
 
@@ -59,6 +59,55 @@ Theorem lowering_mov_in_sem : forall isem prog regions s f d z,
   = Next (upd_top s (next_pc (set_reg f d (V (u64 z) Def))) (st_mem s) None).
 Proof. exact exec_movimm. Qed.
 Print Assumptions lowering_mov_in_sem.
+
+(* The whole chain executed by Sem.exec_insn step by step (run_chain), from any state whose top frame
+   holds defined integers in the base/index registers: it runs to the end, touches only the fresh
+   temporaries and the pc of the top frame (memory, alloca blocks, events, oracle, outer frames are
+   unchanged), and afterwards the lowered operand (type, disp 0, base = address register) has the
+   address Sem.eval_addr gave to the original operand before. *)
+Theorem lowering_chain_in_sem : forall isem prog regions,
+  (forall a b, sem_val isem ADD [a; b] = Some (u64 (a + b))) ->
+  (forall a b, sem_val isem MUL [a; b] = Some (u64 (a * b))) ->
+  forall m t s f rest cs a,
+  st_frames s = f :: rest ->
+  fresh t m ->
+  (m_index m <> None -> m_scale m = 1 \/ m_scale m = 2 \/ m_scale m = 4 \/ m_scale m = 8) ->
+  defd_opt (fr_regs f) (m_base m) -> defd_opt (fr_regs f) (m_index m) ->
+  lower m t = (cs, Some a) ->
+  exists s' f',
+    run_chain isem prog regions s f cs = Some (s', f') /\
+    st_frames s' = f' :: rest /\ same_state s s' /\ same_frame f f' (length cs) /\
+    agree_out (temps_list t) (fr_regs f) (fr_regs f') /\
+    eval_addr (fr_regs f') (lowered_memop m a) = eval_addr (fr_regs f) m.
+Proof. exact lowered_operand_address. Qed.
+Print Assumptions lowering_chain_in_sem.
+
+(* simplify_insn for a memory SOURCE operand of a value instruction, as a simulation in Sem: if the
+   original instruction (any opcode Sem runs through exec_val: all integer/FP arithmetic, comparisons,
+   conversions, ext, overflow insns; operand list pre ++ [mem] ++ post, register or memory destination)
+   executes to s1, then the chain followed by the instruction with the lowered operand executes too, to
+   a state with the same memory, overflow flags, events, oracle, alloca blocks and outer frames, whose top
+   frame has the same registers except the temporaries (pc advanced by the chain length). *)
+Theorem simplify_mem_source_preserves : forall isem prog regions,
+  (forall a b, sem_val isem ADD [a; b] = Some (u64 (a + b))) ->
+  (forall a b, sem_val isem MUL [a; b] = Some (u64 (a * b))) ->
+  forall m t s f rest cs a o ks kd dst pre post s1,
+  st_frames s = f :: rest ->
+  fresh t m ->
+  (m_index m <> None -> m_scale m = 1 \/ m_scale m = 2 \/ m_scale m = 4 \/ m_scale m = 8) ->
+  defd_opt (fr_regs f) (m_base m) -> defd_opt (fr_regs f) (m_index m) ->
+  lower m t = (cs, Some a) ->
+  no_temps (temps_list t) dst -> Forall (no_temps (temps_list t)) pre -> Forall (no_temps (temps_list t)) post ->
+  exec_val isem regions s f o ks kd dst (pre ++ Omem m :: post) = Ok s1 ->
+  exists s' f' s1',
+    run_chain isem prog regions s f cs = Some (s', f') /\
+    exec_val isem regions s' f' o ks kd dst (pre ++ Omem (lowered_memop m a) :: post) = Ok s1' /\
+    sim_result (temps_list t) (length cs) s1 s1'.
+Proof. exact lowering_preserves_value_insn. Qed.
+Print Assumptions simplify_mem_source_preserves.
+
+(* (the two hypotheses on the instruction semantics are [lowering_insns_meaning] for the integer
+   semantics the engines are compared with: C01.InsnSem.mir_val_int) *)
 
 (* Alloca consolidation: the blocks carved out of the merged alloca follow each other inside
    [0, total): any two are disjoint (any group size, any sizes incl. <= 0). *)
